@@ -115,3 +115,40 @@ def typed_frame(rows: list[dict], types: dict[str, str]) -> pd.DataFrame:
         elif t == "float":
             df[c] = pd.Series(df[c], dtype="float64")
     return df
+
+
+# --------------------------------------------------------------------------- size thresholds inside the code
+def size_constants(module_names, least: int = 64) -> dict[str, int]:
+    """Module-level integer constants (NAME = 500_000) of the given modules that are at least `least`: batch / chunk sizes and
+    similar thresholds at which the code switches regime.  The properties quantify over ALL input sizes, but generated inputs stay far
+    below such a threshold, so a check also runs its cases with these constants scaled down (`shrunk_constants`), which puts small
+    inputs on the far side of the threshold.  On a tree without such constants this is a no-op."""
+    import importlib
+
+    out = {}
+    for mn in module_names:
+        try:
+            mod = importlib.import_module(mn)
+        except Exception:  # noqa: BLE001
+            continue
+        for k, v in vars(mod).items():
+            if isinstance(v, int) and not isinstance(v, bool) and v >= least and k.upper() == k and not k.startswith("__"):
+                out[f"{mn}.{k}"] = v
+    return out
+
+
+@contextmanager
+def shrunk_constants(module_names, value):
+    """Temporarily set every constant found by `size_constants` to `value` (None: leave the code as it is)."""
+    import importlib
+
+    found = size_constants(module_names) if value is not None else {}
+    try:
+        for qn in found:
+            mn, k = qn.rsplit(".", 1)
+            setattr(importlib.import_module(mn), k, value)
+        yield found
+    finally:
+        for qn, old in found.items():
+            mn, k = qn.rsplit(".", 1)
+            setattr(importlib.import_module(mn), k, old)
